@@ -3446,6 +3446,11 @@ int cgi_read_ptset(double parent_id, cgns_ptset *ptset)
             cgi_error("Error reading node %s",ptset->name);
             return CG_ERROR;
         }
+        /* a range holds the begin and the end point: 2*Idim values are used */
+        if (size < 2*Idim) {
+            cgi_error("Invalid definition of point set range %s", ptset->name);
+            return CG_ERROR;
+        }
         if (0 == strcmp(ptset->data_type,"I8")) {
             cglong_t total = 1;
             cglong_t *pnts = CGNS_NEW(cglong_t, size);
